@@ -307,24 +307,55 @@ def rule_d7(repo):
     a type (x::bool on the right is not the argument x::nat), and schematic variables / schematic type
     variables - which get_vars / get_tvars do not list - could be instantiated at will in the defining
     theorem (c = ?x gives true = false)."""
-    res = RuleResult('C11.D7', 'the free-variable condition compares variables with their types, and schematic variables and schematic type variables are refused', floor=3)
+    res = RuleResult('C11.D7', 'the free-variable condition is a subset test on variables with their types, and schematic variables and schematic type variables are refused', floor=4)
     f = repo.func(ITEMS, 'Definition.parse')
     cfg = cfg_of(f.node)
     # accept = leaving the try body normally
     tries = [n for n in ast.walk(f.node) if isinstance(n, ast.Try)]
     need(tries, 'Definition.parse: try block not found')
     body = tries[0].body
-    # (1) the sets compared for "rhs variables are lhs arguments" are built from the variables, not their names
-    subset = [c for st in body for c in ast.walk(st) if isinstance(c, ast.Call) and call_attr(c) == 'issubset']
-    need(subset, 'Definition.parse: rhs_vars.issubset(lhs_vars) not found')
+    # (1) the test that refuses extra variables on the right: "the rhs variables are not a subset of the arguments"
+    guards = [n for st in body for n in ast.walk(st) if isinstance(n, ast.If) and any(
+        isinstance(x, ast.Raise) and 'extra variables' in src(x, 300) for b in n.body for x in ast.walk(b))]
+    need(guards, 'Definition.parse: the test that refuses extra variables on the right side not found')
+    g = guards[0].test
     flow = flow_of(f.node)
+
+    def not_subset(e):
+        """(A, B) when e says "A is not a subset of B", else None"""
+        if isinstance(e, ast.UnaryOp) and isinstance(e.op, ast.Not):
+            x = e.operand
+            if isinstance(x, ast.Call) and call_attr(x) == 'issubset' and x.args:
+                return x.func.value, x.args[0]
+            if isinstance(x, ast.Call) and call_attr(x) == 'issuperset' and x.args:
+                return x.args[0], x.func.value
+            cp = compare_parts(x)
+            if cp and cp[0] is ast.LtE:
+                return cp[1], cp[2]
+            if cp and cp[0] is ast.GtE:
+                return cp[2], cp[1]
+        if isinstance(e, ast.BinOp) and isinstance(e.op, ast.Sub):
+            return e.left, e.right
+        if isinstance(e, ast.Call) and call_attr(e) == 'difference' and e.args:
+            return e.func.value, e.args[0]
+        return None
+    ns = not_subset(g)
+    ok_dir = False
     by_name = False
-    for c in subset:
-        for side in (c.func.value, c.args[0]):
+    if ns is not None:
+        a_names, b_names = flow.names_closure(ns[0]), flow.names_closure(ns[1])
+        # A from the right side, B from the arguments of the left side
+        ok_dir = any('rhs' in x for x in a_names) or 'get_vars' in src(ns[0], 200) or any(
+            kd == 'value' and 'rhs' in src(rh, 200) for nm in a_names for kd, rh in flow.defs.get(nm, []))
+        for side in ns:
             if isinstance(side, ast.Name):
                 for kd, rhs in flow.defs.get(side.id, []):
                     if kd == 'value' and any(isinstance(x, ast.Attribute) and x.attr == 'name' for x in ast.walk(rhs)):
                         by_name = True
+    res.add('%s :: Definition.parse :: extra-variables-test-is-not-subset' % ITEMS, ns is not None and ok_dir,
+            'refused unless the right side\'s variables are a subset of the arguments' if ns is not None and ok_dir else
+            'the test `%s` that refuses extra variables on the right is not "not a subset of the arguments": with a strict-superset test '
+            '(`rhs > lhs`) incomparable sets pass, and d x = y is accepted' % src(g, 60), '%s:%d' % (ITEMS, guards[0].lineno))
     res.add('%s :: Definition.parse :: variables-with-types' % ITEMS, not by_name,
             'the sets hold the variables themselves' if not by_name else
             'the free variables of the right side are compared with the arguments by name only: c x = (x::bool) for c :: nat => bool is accepted, '
